@@ -144,6 +144,12 @@ class Oracles:
                           steps=env.steps)
         if self.P("C08") and obs is not None:
             self._c08_initial(obs, env.current_state)
+            ctor = getattr(sim, "ctor_last_obs", None)
+            if first and ctor is not None:
+                # what the constructor left in env.last_obs is the initial
+                # observation of the environment's own mode, too
+                self._c08_initial(ctor.reshape(-1) if sim.flat_obs else ctor,
+                                  env.current_state)
         if self.P("C09"):
             self._c09_state(env.current_state, post)
             if first:
@@ -203,11 +209,17 @@ class Oracles:
         if getattr(obj, "_dsim_custom", False):
             plain_x = obj       # a self-built Action object: use it everywhere
         lo = hi = None
+        comp = None
+        comp_first = self.P("C13") and (len(sim.ops) % 2 == 0)
+        if comp_first:
+            # the companion is sometimes the very first look at this
+            # (state, action) pair, before the twins
+            comp = self.transition(cur, obj, plain_x, draws, tag="companion")
         if self.twins and act.kind != "noop":
             lo, hi = self._twins(cur, obj, plain_x, act)
-        comp = None
-        if self.P("C13"):
+        if self.P("C13") and not comp_first:
             comp = self.transition(cur, obj, plain_x, draws, tag="companion")
+        if self.P("C13"):
             for e in interpose or ():
                 st2 = cur if e["src"] == "cur" else sim.states.get(e["src"])
                 if st2 is None:
@@ -1253,6 +1265,19 @@ class Oracles:
         if not np.array_equal(o2.tensor, o.tensor):
             self.fail("C09.roundtrip", "Observation.from_numpy does not "
                       "give back the same content")
+        # the same content in column-major memory (e.g. from a transposed
+        # replay buffer) is the same observation
+        o3 = Observation.from_numpy(np.asfortranarray(o.numpy()),
+                                    state.shape())
+        if not np.array_equal(o3.numpy(), o.tensor) or \
+                not np.array_equal(o3.numpy_flat(), o.tensor.reshape(-1)):
+            self.fail("C09.roundtrip", "an observation fed back in "
+                      "column-major memory does not flatten row-major")
+        s3 = State.from_numpy(np.asfortranarray(state.tensor),
+                              state.shape(), state.host_num_map)
+        if not np.array_equal(s3.numpy_flat(), state.tensor.reshape(-1)):
+            self.fail("C09.roundtrip", "a state fed back in column-major "
+                      "memory does not flatten row-major")
         if unique_names:
             hosts_rd, aux_rd = o2.get_readable()
             n = len(cfg.order)
@@ -1457,7 +1482,6 @@ class Oracles:
                        lambda: env.scenario.host_value_bounds,
                        lambda: env.action_space.sample(),
                        env.generate_initial_state,
-                       env.close,
                        lambda: __import__("copy").deepcopy(
                            env.current_state),
                        lambda: __import__("copy").deepcopy(env.scenario)):
